@@ -13,7 +13,7 @@ PROP = "C12"
 USES_COLD = True
 IO_KINDS = ["ENOENT", "EACCES", "EIO", "EMFILE", "EISDIR", "tear_line", "tear_byte", "flip", "short", "short"]
 API_OPS = ["dumps", "call", "digraph", "attrs", "iter", "deepcopy", "match"]
-MUTS = ["op_append", "op_del", "op_replace", "op_rename", "arg_set", "arg_append", "kwarg_set",
+MUTS = ["regref_edit", "op_append", "op_del", "op_replace", "op_rename", "arg_set", "arg_append", "kwarg_set",
         "modes_edit", "var_array_write", "var_set", "option_add", "type_option_add", "modes_add",
         "array_arg_write", "list_kwarg_append"]
 
